@@ -7,7 +7,7 @@ register(PropSpec(
     "C08",
     engines=[EngineSpec("exec", gen_dispatch.gen_c08, gen_dispatch.mon_c08, gen_dispatch.tags_c08, quick_n=300, thorough_n=8000,
                         mask=mon_exec.mask_unmodelled)],
-    facts=["contractMethods"],
+    facts=["contractMethods", "goSites", "recoverGuards"],
     rule="exec engine: blocks of malformed transactions at every position: every exported contract method (regenerated table) with wrong argument counts / "
          "types / unknown type tags / unparsable numbers / unknown or empty method names; raw payload bytes (nil, empty, truncated, garbage) to contracts, accounts "
          "and nil receivers; TransactionData with arbitrary type / vm type / amount / inner payload; IBTPs with malformed service ids, extreme indices and timeouts, "
